@@ -296,7 +296,9 @@ func malform(c *Ctx, parts [][]byte, unit string) (string, int) {
 	pi := c.Draw(len(parts))
 	lines := strings.Split(strings.TrimRight(string(parts[pi]), "\n"), "\n")
 	li := c.Draw(len(lines))
-	kind := c.Draw(len(malformNames))
+	// a level jump is the one class simple mode accepts silently (it drops the lines), so both
+	// modes return nil and the outputs are compared: drawn more often
+	kind := c.Pick(2, 2, 2, 2, 6, 2, 1)
 	ind := func(l string) string {
 		t := strings.TrimLeft(l, " \t")
 		return l[:len(l)-len(t)]
